@@ -40,6 +40,7 @@ Definition LB (ch : list comp) (o : bool) (p : list comp) : builder :=
 (* line-breaker leg: (tree, max_line_length, tab_size, output of build) *)
 Definition check_lb (tbl : list N) (cases : list (builder * N * N * str)) : list nat :=
   bad_indices (fun c => let '(tree, w, tab, out) := c in
+                        closed_l (children tree) &&
                         match build (in_tbl tbl) w tab tree with
                         | Some s => str_eqb s out
                         | None => false
